@@ -8,3 +8,4 @@ import RexModel.Props.C06
 #print axioms Rex.C06.supervisor_calls
 #print axioms Rex.C06.seq_after_step
 #print axioms Rex.C06.async_calls_once
+#print axioms Rex.C06.async_ticks_numbered
